@@ -135,7 +135,7 @@ def body_corpus(case, rec):
     from synkit.Graph.ITS.its_decompose import get_rc
     from synkit.IO.chem_converter import rsmi_to_its
 
-    corpus = chem_gen.corpus()
+    corpus = chem_gen.corpus() + VENDORED
     rsmi, src, style = corpus[case["rxn"] % len(corpus)]
     base, newh = P.explicit_h_variant(rsmi, case.get("hx") or [])
     v = chem_gen.variant(base, case["spec"])
@@ -171,8 +171,28 @@ def _spec():
     return st.tuples(chem_gen.variant_spec_strategy(reverse=True), st.sampled_from([0, 0, 13, 500])).map(lambda t: dict(t[0], offset=t[1]))
 
 
+# Mapped reactions the corpora do not contain: bond-order shifts along conjugated chains of 5-8 atoms (pericyclic
+# reactions, conjugate additions), where a changed bond can have end atoms whose whole neighbourhood is otherwise
+# unchanged.  (rsmi, source tag, hydrogen style) like chem_gen.corpus() entries; all fully mapped and balanced.
+VENDORED = tuple(
+    (r, "vendored", "implicit")
+    for r in (
+        "[CH2:1]=[CH:2][CH:3]=[CH:4][CH:5]=[CH2:6]>>[CH2:1]1[CH:2]=[CH:3][CH:4]=[CH:5][CH2:6]1",
+        "[CH2:1]=[CH:2][CH2:3][CH2:4][CH:5]=[CH2:6]>>[CH2:3]=[CH:2][CH2:1][CH2:6][CH:5]=[CH2:4]",
+        "[CH2:1]=[CH:2][CH:3]=[CH:4][CH:5]=[O:6].[OH2:7]>>[OH:7][CH2:1][CH:2]=[CH:3][CH:4]=[CH:5][OH:6]",
+        "[CH2:1]=[CH:2][CH:3]=[CH:4][CH:5]=[CH:6][CH:7]=[CH2:8]>>[CH2:1]1[CH:2]=[CH:3][CH:4]=[CH:5][CH:6]=[CH:7][CH2:8]1",
+        "[CH2:1]=[CH:2][CH:3]=[CH2:4].[CH2:5]=[CH2:6]>>[CH2:1]1[CH:2]=[CH:3][CH2:4][CH2:5][CH2:6]1",
+        "[CH2:1]=[CH:2][CH2:3][O:4][CH:5]=[CH2:6]>>[CH2:3]=[CH:2][CH2:1][CH2:6][CH:5]=[O:4]",
+        "[CH3:9][CH:1]=[CH:2][CH:3]=[CH:4][CH:5]=[CH:6][CH3:10]>>[CH3:9][CH:1]1[CH:2]=[CH:3][CH:4]=[CH:5][CH:6]1[CH3:10]",
+        "[CH2:1]=[CH:2][CH:3]=[CH:4][CH:5]=[CH:6][C:7]#[N:8].[NH3:9]>>[NH2:9][CH2:1][CH:2]=[CH:3][CH:4]=[CH:5][CH2:6][C:7]#[N:8]",
+    )
+)
+for _r, _, _ in VENDORED:
+    assert chem_gen._well_formed(_r), f"vendored reaction is not well formed: {_r}"
+
+
 def strat_corpus(tier):
-    n = chem_gen.corpus_size()
+    n = chem_gen.corpus_size() + len(VENDORED)
     return st.fixed_dictionaries(
         dict(
             rxn=st.integers(0, n - 1),
@@ -185,7 +205,7 @@ def strat_corpus(tier):
 
 
 def enum_corpus_plain(tier):
-    for i in range(chem_gen.corpus_size()):
+    for i in range(chem_gen.corpus_size() + len(VENDORED)):
         yield dict(rxn=i, spec=dict(maps=None, atoms=None, frags=None, reverse=False), hx=None, pi=[(i * 7919 + j * 104729) % 1000 for j in range(17)], offset=0)
 
 
